@@ -126,6 +126,7 @@ func faultPositions(r *vh.Rng, v iox.Variant, in []byte) []faultDesc {
 	if n > 0 {
 		out = append(out, faultDesc{Pos: n - 1, Where: "last-byte"})
 		out = append(out, faultDesc{Pos: n, Where: "at-the-end"})
+		out = append(out, faultDesc{Pos: n, Where: "at-the-end-with-last-chunk"})
 		out = append(out, faultDesc{Pos: r.Pick(n), Where: "random"})
 	}
 	return out
@@ -319,7 +320,7 @@ func (e *env) checkInput(r *vh.Rng, v iox.Variant, in []byte, kind string) {
 			}
 			fd := fd
 			fd.Once = once
-			fd.WithData = r.Chance(0.25)
+			fd.WithData = r.Chance(0.25) || fd.Where == "at-the-end-with-last-chunk"
 			fd.Kind1 = iox.FaultKinds[r.Pick(len(iox.FaultKinds))]
 			fd.Kind2 = iox.FaultKinds[r.Pick(len(iox.FaultKinds))]
 			if r.Chance(0.3) {
@@ -361,8 +362,12 @@ func main() {
 		"(input, fault position, fault mode) triples: inputs of the seven formats (x encodings, BOM, CRLF, ...) read through a reader that returns data up to the position and then a non-EOF error (persistent, or one error once and then another one persistently; error values: plain pointer/struct errors, io.ErrUnexpectedEOF, errors wrapping io.EOF, *os.PathError, text EOF); positions include every one of the first five lines (header rows, rows to skip); "+
 			"non-trivial = the fault position is strictly inside the input and the source did return the fault; distinct by (variant, input bytes, position, mode)")
 	e := &env{o: o, sum: sum, variants: iox.Variants(), schemas: map[string]*iox.CapSchema{}}
-	e.cw = vh.NewCaseWriter(o, "C16", "Base.ErrClass Model.Chunk Model.Fault", "fcase", "Fault.check_case")
-	e.cw.PerFile = 80
+	// the (many, tiny) classification cases and the (few, heavier) component cases go to separate
+	// shard families so that neither floods the other
+	e.cw = vh.NewCaseWriter(o, "C16r", "Base.ErrClass Model.Chunk Model.Fault", "fcase", "Fault.check_case")
+	e.cw.PerFile = 700
+	cwc := vh.NewCaseWriter(o, "C16", "Base.ErrClass Model.Chunk Model.Fault", "fcase", "Fault.check_case")
+	cwc.PerFile = 16
 
 	if o.Replay != "" {
 		var rp struct {
@@ -438,10 +443,11 @@ func main() {
 		}
 	}
 
-	components(r, o, sum, e.cw)
+	components(r, o, sum, cwc)
 
 	e.cw.Flush()
-	sum.CaseFiles = e.cw.Files
+	cwc.Flush()
+	sum.CaseFiles = append(e.cw.Files, cwc.Files...)
 	sum.Write(o)
 }
 
